@@ -55,7 +55,7 @@ PROPS = {
         module="OrbitModel.Properties.C03",
         theorems=["Orbit.C03.visible_entries_are_authored_by_writers", "Orbit.C03.forged_or_unauthorised_never_visible",
                   "Orbit.C03.local_write_by_non_writer_fails", "Orbit.C03.pinned_tree_accepts_copied_id", "Orbit.C03.reload_route_joins_only_this_logs_entries"],
-        families=[("forge", 150, 4000, 10)],
+        families=[("forge", 150, 4000, 10), ("address", 30, 600, 10)],
         corr_fields={"values", "heads", "idx", "len", "ack", "sync", "loadq", "rev"},
         nontrivial=lambda lines: sum(1 for l in lines if l.startswith("forged ") and " err" not in l) >= 1 and sum(1 for l in lines if l.startswith("op inject")) >= 1,
         rule="write lists of every shape (explicit ids, wildcard, creator only, attacker included) x non-writer local writes x forged-author recipes (own identity, copied writer id, copied identity block, foreign key, 13 single-field tamperings, other database, wrong address) built with the real entry package and a second signer, delivered by manual sync / pubsub / direct channel, alone, mixed with valid heads at either end, or hidden behind a colluding writer's entry; the flags the model uses (signature valid, address valid, identity block genuine) are measured on the real objects; every listed entry on every replica must be authored by a writer; non-trivial = at least one forged entry injected",
@@ -67,7 +67,7 @@ PROPS = {
         theorems=["Orbit.C04.only_verified_same_database_entries_merged", "Orbit.C04.held_entries_unaffected",
                   "Orbit.C04.batch_merges_only_verified", "Orbit.C04.misaddressed_head_refused",
                   "Orbit.C04.listed_entries_are_members", "Orbit.C04.pinned_foreign_entry_becomes_head", "Orbit.C04.load_hands_only_own_entries_to_join", "Orbit.C04.foreign_entry_came_back_through_load_before_the_fix"],
-        families=[("forge", 150, 4000, 10)],
+        families=[("forge", 150, 4000, 10), ("multidb", 25, 400, 8)],
         corr_fields={"values", "heads", "idx", "len", "sync", "loadq", "rev"},
         nontrivial=lambda lines: sum(1 for l in lines if l.startswith("forged ") and " err" not in l) >= 1 and sum(1 for l in lines if l.startswith("op inject")) >= 1,
         rule="same family as C03: every single-field mutation of the wire form (payload, clock time, clock id, next, refs, key, signature, identity id / key / signatures, log id, claimed hash) and entries of another database, as announced head and as ancestor; every listed entry must verify, be well addressed and belong to the database; Len() must equal the listing; earlier listings must survive",
@@ -92,7 +92,7 @@ PROPS = {
                   "Orbit.C06.later_put_wins", "Orbit.C06.later_delete_wins", "Orbit.C06.own_write_listed_last",
                   "Orbit.C06.stale_key_survives", "Orbit.C06.concurrent_updates_never_leave_a_stale_view",
                   "Orbit.C06.unlocked_copy_left_a_stale_view"],
-        families=[("kv", 120, 4000, 16), ("concurrent", 20, 500, 6), ("reload", 40, 1000, 12)],
+        families=[("kv", 120, 4000, 16), ("concurrent", 20, 500, 6), ("reload", 40, 1000, 12), ("limit", 40, 1000, 12)],
         corr_fields={"values", "idx", "ack", "time", "next"},
         nontrivial=nt_kv,
         rule="PRNG Put/Delete histories (repeated keys, deletes of absent keys, re-puts, empty/binary values, unicode and empty keys) by 1-4 writers with interleaved Sync; Get/All compared with lwwReplay(Values()) after every step on every replica; non-trivial = >=2 writers, >=1 merge, a key written twice",
@@ -103,7 +103,7 @@ PROPS = {
         module="OrbitModel.Properties.C07",
         theorems=["Orbit.C07.index_tracks_replay", "Orbit.C07.index_step", "Orbit.C07.pinned_tree_violates",
                   "Orbit.C07.get_returns_exactly_matching"],
-        families=[("doc", 120, 4000, 14), ("reload", 40, 1000, 12)],
+        families=[("doc", 120, 4000, 14), ("reload", 40, 1000, 12), ("limit", 40, 1000, 12)],
         corr_fields={"values", "idx", "ack", "docget"},
         nontrivial=nt_doc,
         rule="PRNG histories mixing Put/PutBatch/PutAll/Delete on overlapping mixed-case ASCII keys by 1-4 writers with interleaved Sync; index compared with docReplay(Values()) after every step; Get over every option combination and Query over a predicate family compared with the matching documents of the index",
@@ -115,7 +115,7 @@ PROPS = {
         theorems=["Orbit.C08.listing_only_grows", "Orbit.C08.listing_only_grows_steps", "Orbit.C08.listed_after_seen",
                   "Orbit.C08.query_returns_exact_window", "Orbit.C08.window_iff_single_bound",
                   "Orbit.C08.get_returns_entry", "Orbit.C08.result_is_contiguous"],
-        families=[("log", 120, 4000, 16)],
+        families=[("log", 120, 4000, 16), ("routes", 40, 1000, 12), ("limit", 40, 1000, 12)],
         corr_fields={"values", "result", "time", "next"},
         nontrivial=nt_log,
         rule="PRNG multi-writer event-log histories; listing after every merge must contain the previous listing as a subsequence and respect next-links; range queries over bound kind x position x amount in {unset,0,1,2,3,len,len+3,-1,-5} compared with the exact window of the listing",
@@ -196,7 +196,7 @@ PROPS = {
         module="OrbitModel.Properties.C13",
         theorems=["Orbit.C13.read_order_tied_to_go_text", "Orbit.C13.framing_round_trips", "Orbit.C13.save_errors_exactly_when_a_record_is_too_long",
                   "Orbit.C13.save_errors_or_loads_back", "Orbit.C13.size_guards_tied_to_go_text", "Orbit.C13.snapshot_written_while_the_log_grows_loads_back",
-                  "Orbit.C13.save_is_racing_save_at_rest", "Orbit.C13.reordered_reads_would_write_unloadable_snapshots", "Orbit.C13.pinned_tree_wrote_unloadable_snapshot"],
+                  "Orbit.C13.save_is_racing_save_at_rest", "Orbit.C13.reordered_reads_would_write_unloadable_snapshots", "Orbit.C13.pinned_tree_wrote_unloadable_snapshot", "Orbit.C13.save_errors_or_loads_back_through_the_fetcher", "Orbit.C13.snapshot_written_while_the_log_grows_loads_back_through_the_fetcher"],
         families=[("snapshot", 60, 1500, 10)],
         corr_fields={"values", "heads", "idx", "len", "ack", "sync"},
         nontrivial=lambda lines: any(l.startswith("snapsaved ") or l.startswith("snapsave ") for l in lines),
@@ -283,8 +283,8 @@ _TIE = ("Lean 4 theorems about a hand-written model + correspondence harness: th
         "property's L1 predicate on the implementation's own observations")
 MANIFEST_TEXT = {
     "C13": dict(
-        text="Kernel-checked theorems: the 16-bit record framing round-trips for every list of records that save accepts; save returns an error exactly when the header or an entry exceeds 65535 bytes; for every reachable log whose entries the access controller accepts, save either errors or produces bytes from which a fresh store rebuilds a log with the same entries, Values() and heads. A snapshot written WHILE the log grows (SaveSnapshot takes no lock and reads heads, length, entries in that order) is proved to load back as the state at the first read; with the reads reordered it would be written without error and refused by the loader (proved). The pinned tree's silent length wrap-around (record of 65536 bytes written with length 0) is a proved witness replayed on the real store before the fix: commits (F9a-c). The snapshot family saves on real stores (payloads around the 64 KiB limit) and loads into brand-new instances.",
-        note="Trusted: Lean kernel + standard axioms; the JSON codec of one entry is a parameter with a left inverse (sampled by the harness); the unixfs file layer is a fake that stores files whole.",
+        text="Kernel-checked theorems: the 16-bit record framing round-trips for every list of records that save accepts; save returns an error exactly when the header or an entry exceeds 65535 bytes; for every reachable log whose entries the access controller accepts, save either errors or produces bytes from which a fresh store rebuilds a log with the same entries, Values() and heads. A snapshot written WHILE the log grows (SaveSnapshot takes no lock and reads heads, length, entries in that order) is proved to load back as the state at the first read; with the reads reordered it would be written without error and refused by the loader (proved). The pinned tree's silent length wrap-around (record of 65536 bytes written with length 0) is a proved witness replayed on the real store before the fix: commits (F9a-c). The Go port's loader does not build the log from the records: ipfslog.NewFromJSON ignores the entries it is given and fetches the ancestry of the recorded heads out of IPFS (read in the dependency; noted by a sub-agent); the model has both readings and the theorems are proved for both (loadFetching: on a node holding the blocks the fetch returns the log, and then the fresh store rebuilds the same entries, Values() and heads; a snapshot written while the log grew loads as the state at the first read with no proviso). The snapshot family saves on real stores (payloads around the 64 KiB limit) and loads into brand-new instances over the same block store.",
+        note="Trusted: Lean kernel + standard axioms; the JSON codec of one entry is a parameter with a left inverse (sampled by the harness); the unixfs file layer is a fake that stores files whole; the fetcher's contract (it returns the ancestry of the heads it is given, from blocks the node holds) is a hypothesis of the fetching-loader theorems - a snapshot is NOT self-contained in this port: a node without the blocks needs the network to load it.",
         technique="Lean 4 proof (codec round-trip by induction; rebuilt log joins to the same entries/order/heads) with differential correspondence on real save/load"),
     "C14": dict(
         text="Kernel-checked theorems over a segment-list model of Go's path.Join/Clean: the address answered names the manifest the inputs were hashed into; with an injective manifest hash different (name, type, access controller) give different addresses; every answered address prints and parses back to itself; the accepted names are characterised exactly; over a model of Create/Open written in the order of the Go code: creating over an existing local database is refused unless overwrite, a local-only open of an unknown database is refused, an open yields the recorded type and write list whatever options are passed, and what Create returned is what every later Open returns on this and on any other instance. The pinned tree answered another database's address for a climbing name (decide-checked witness, replayed on the real code before the fix: commit). Whatever string Open accepts as an address prints as an address of the same database (address.Parse refuses a path that climbs out of its root: finding F28, fix: commit, with a decide-checked witness of the old split). The address family compares DetermineAddress/Create/Open/Parse on 2-3 real peers with the model over adversarial names, store types, write lists and user-supplied address spellings.",
